@@ -296,6 +296,9 @@ def run(ctx, rep):
     # ------------------------------------------------------------ R05.p replay consumes the whole journalled command
     replay_consumes_payload(ctx, rep, 'R05.p')
 
+    # ------------------------------------------------------------ R05.q replay numbers partitions as the run time does
+    replay_partition_numbering(ctx, rep, 'R05.q')
+
     # ------------------------------------------------------------ R05.e start-up deletes only what replay does not know
     rep.rule('R05.e', 'start-up removes a data directory only on the "not found in replayed state" edge', floor=2, analysis='A3')
     n = 0
@@ -448,3 +451,43 @@ def replay_consumes_payload(ctx, rep, rid):
             ok = f == g or (f, g) in REPLAY_RENAMES
             rep.ob(rid, INIT, '%s.%s <- %s.%s' % (adt, f, m.group(1), g), ok, where, None if ok else
                    'the replayed `%s.%s` is copied from `%s.%s` — a payload field of another meaning' % (adt, f, m.group(1), g))
+
+
+def replay_partition_numbering(ctx, rep, rid):
+    """shared with C17: which partition ids exist after a restart.  The run time numbers new partitions last+1..=last+n
+    and removes the highest n ids (Topic::add_partitions / delete_persisted_partitions); the replay must produce the
+    same id set, otherwise the loader deletes the data of a partition the state does not know and re-creates an empty
+    one the run time had removed."""
+    import forms as forms_
+    INIT = 'server::state::system::SystemState::init'
+    rep.rule(rid, 'replay numbers partitions as the run time does: created partitions get last+1..=last+n (RangeInclusive from 1), removed partitions are last-0..last-(n-1) (Range from 0, clamped count): the id set after replay is the id set on disk', floor=5, analysis='A10 normal forms')
+    b = ctx.fn_body(INIT)
+    want = {
+        'insert': ['::next(::into_iter(RangeInclusive::new(…)))',
+                   're:^\\(::next\\(::into_iter\\(RangeInclusive::new\\(…\\)\\)\\) \\+ phi\\{0 \\| Option::unwrap_or_else\\(Iterator::max\\(.*\\), closure\\)\\}\\)$'],
+        'remove': ['re:^\\(Option::unwrap_or_else\\(Iterator::max\\(.*\\), closure\\) - ::next\\(::into_iter\\(Range::Range\\{start: 0, end: Ord::min\\(…\\)\\}\\)\\)\\)$'],
+    }
+    seen = set()
+    for c in b.calls:
+        op = c.name.split('::')[-1]
+        if op not in want or 'AHashMap' not in c.name or not is_user_call(c) or len(c.args) < 2:
+            continue
+        tgt = canon(b.pexpr_operand(c.args[0], 0, frozenset(), (c.bb, 't')), 0, 1)
+        if not tgt.endswith('.partitions') and not (op == 'insert' and 'PartitionState' in canon(b.pexpr_operand(c.args[2], 0, frozenset(), (c.bb, 't')), 0, 1)):
+            continue
+        key = canon(b.pexpr_operand(c.args[1], 0, frozenset(), (c.bb, 't')), 0, 2)
+        m = forms_._match(key, want[op])
+        if m:
+            seen.add(m)
+        rep.ob(rid, INIT, 'partitions.%s(%s)' % (op, key[:90]), m is not None, c.where(), None if m else
+               'the partition id replay %ss is `%s` — not one of the confirmed forms (%s): replay and run time disagree on which partition ids exist' % (op, key, want[op]))
+    for op, fs in want.items():
+        for f in fs:
+            if f not in seen:
+                rep.ob(rid, INIT, 'partitions.%s form present' % op, False, None, 'the confirmed replay form `%s` is no longer found' % f[:100])
+    got = [(l, f) for l, f, _ in forms_.call_arg_forms(ctx, INIT, 'RangeInclusive::new', skip_self=False, cd=1)]
+    for l, f in got:
+        ok = f.startswith('1, ') and f.endswith('.partitions_count')
+        rep.ob(rid, INIT, 'RangeInclusive::new(%s)' % f[-60:], ok, 'server/src/state/system.rs:%s' % l, None if ok else 'created partitions are numbered over `%s`, not 1..=partitions_count' % f)
+    if len(got) < 2:
+        rep.ob(rid, INIT, 'partition creation ranges', False, None, 'the two 1..=partitions_count loops (CreateTopic, CreatePartitions) are no longer found')
